@@ -1380,8 +1380,11 @@ def _parser_const(name):
     return int(m.group(1))
 
 
-TOKEN_NEWLINE = _parser_const("NEWLINE")
-constants["parser.CKBParser:CKBParser.NEWLINE"] = VInt(TOKEN_NEWLINE)
+try:
+    TOKEN_NEWLINE = _parser_const("NEWLINE")
+    constants["parser.CKBParser:CKBParser.NEWLINE"] = VInt(TOKEN_NEWLINE)
+except (Unsupported, OSError):
+    TOKEN_NEWLINE = None  # the contracts that need it come out UNDECIDED (shape mismatch), nothing else is affected
 
 
 # ---------------------------------------------------------------------------
